@@ -300,7 +300,18 @@ type fillOpt struct {
 	depthLimit int
 }
 
+// strings that are harmless as DATA but special to something that may carry them: XML comments /
+// CDATA / entities / tags, JSON escapes written out literally (backslash u 0 0 2 6), backslashes and
+// quotes, format verbs, line breaks, non-BMP characters, a long string (seeds C15-8: the title put into
+// an XML comment unescaped; C14-8: a replacer that cannot tell an encoder-made \u0026 from the same six
+// characters in the data)
+var nastyStr = []string{"--", "a -- b", "-->", "<!-- x -->", "]]>", "&amp;", "&#65;", "PGM\\u0026PVW", "C:\\u003e", "\\u003c", "\\", "a\\b\\", "\"q\"", "it's", "%d%s %",
+	"</svg>", "<g/>", "l1\nl2", "tab\there", "\u2028", "\U0001F4A1", "R&S", "1<2>0", strings.Repeat("long ", 60)}
+
 func (o *fillOpt) pickStr(name string) string {
+	if o.rng.Intn(7) == 0 {
+		return nastyStr[o.rng.Intn(len(nastyStr))]
+	}
 	if p, ok := poolStr[name]; ok {
 		return p[o.rng.Intn(len(p))]
 	}
